@@ -178,7 +178,13 @@ def _dims(prog: Program, res: Result) -> None:
                     tt, ft = tag(tb[0].value), tag(fb[0].value)
                     if ne:
                         tt, ft = ft, tt
-                    if not (eq or ne) or "M" not in names:
+                    count_names = {nm_ for nm_, defs_ in assigns.items() if len(defs_) == 1 and isinstance(defs_[0].value, ast.Call)
+                                   and (dotted(defs_[0].value.func) or "") == "len"} | {x for x in names if x.startswith("len(")}
+                    if "M" in names and not ((eq or ne) and (names - {"M"}) <= count_names) and (names - {"M"}) <= (count_names | {"N"}):
+                        verdict, why = "BAD", (f"the choice between argsort and sorted modes is made on `{ast.unparse(n.test)}`, not on M == number of "
+                                               "selected modes: with one multiplicand per mode of a full, unsorted dims the multiplicands are "
+                                               "paired with the wrong modes")
+                    elif not (eq or ne) or "M" not in names:
                         verdict, why = "UNDEC", f"selector test {ast.unparse(n.test)}"
                     elif tt and ft and tt.startswith("ARGSORT(") and ft.startswith("SORTED(") and (subject is None or (subject in tt and subject in ft)):
                         verdict, why = "OK", f"P == M -> {tt}; else -> {ft}"
